@@ -85,7 +85,19 @@ class Session:
         else:
             self.oracle = None
         self.schema = load_schema()
+        # field order of the crate's own structs (GroupBinding, WriteOptions, VertexInput ...), from the working tree
+        from .schema import extract
+        self.local_structs = {}
+        srcdir = os.path.join(REPO, 'wgsl_to_wgpu', 'src')
+        for f in sorted(os.listdir(srcdir)):
+            if f.endswith('.rs'):
+                try:
+                    st, _ = extract(os.path.join(srcdir, f))
+                    self.local_structs.update({k: [n for n, _ in v] for k, v in st.items()})
+                except Exception:
+                    pass
         self.conv = Conv(self.schema)
+        self.conv.write_options_order = self.local_structs.get('WriteOptions')
         self.consts = load_consts(self.schema)
         self.setup_s = time.time() - t0
         self.totals = {'paths': 0, 'queries': 0, 'solver_s': 0.0, 'blocks': 0, 'calls': {}, 'models': {}}
@@ -147,5 +159,10 @@ def write_options(conv, derive_bytemuck_vertex=False, derive_bytemuck_host_share
         mv = {'Rust': 0, 'Glam': 1, 'Nalgebra': 2}[mv]
     mvv = Agg('MatrixVectorTypes', [], variant=None, disc=mv)
     val = none() if validate is None else validate
-    return Agg('WriteOptions', [derive_bytemuck_vertex, derive_bytemuck_host_shareable, derive_encase_host_shareable,
-                                derive_serde, mvv, rustfmt, val])
+    vals = {'derive_bytemuck_vertex': derive_bytemuck_vertex, 'derive_bytemuck_host_shareable': derive_bytemuck_host_shareable,
+            'derive_encase_host_shareable': derive_encase_host_shareable, 'derive_serde': derive_serde,
+            'matrix_vector_types': mvv, 'rustfmt': rustfmt, 'validate': val}
+    order = getattr(conv, 'write_options_order', None) or list(vals)
+    if set(order) != set(vals):
+        raise Unsupported('WriteOptions has fields the harness does not know: ' + str(order))
+    return Agg('WriteOptions', [vals[k] for k in order])
